@@ -8,7 +8,7 @@ pub fn prop() -> Prop {
     Prop {
         id: "C07",
         level: "exploration",
-        rule: "streams mixing timestamp words, markers, complete/partial/back-to-back scaler blocks, bare tags, invalid words and truncated tails (0..4 KiB): library entries + consumed length vs a reference parser; split/resume history: every single cut position, all pairs of cuts for streams <=300 bytes, random k-cuts (k<=8), 1-byte pieces, each compared with the one-shot result. Word classification: all 256 top bytes x boundary low parts (quick) / all 2^32 words (thorough, distinct by construction). Non-trivial = distinct streams containing >=1 entry and >=1 scaler block or invalid word, plus classified words that are entries. Also: runs of 65 534..131 073 consecutive entries (one shot and in 10 007-byte pieces), every value of every byte of the scaler tag followed by > 240 bytes of valid words, alignment independence. Round 5: every ordered pair of 1 792 boundary words as 2- / 3-word streams; scaler blocks with special contents (tags, markers, all ones) between identical markers; words made from source constants. Round 6: inputs of 0.3..1.2 MB ending in a complete block / partial block / entry / partial word / invalid word; invalid-channel words inside runs of 4 000..70 000 entries. Round 8: every word 0xFE0000nn / 0xFEnn003C / 0xFE00nn3C followed by 1 100 bytes of entries; timestamps within 16 ticks of a wrap right after a marker.",
+        rule: "streams mixing timestamp words, markers, complete/partial/back-to-back scaler blocks, bare tags, invalid words and truncated tails (0..4 KiB): library entries + consumed length vs a reference parser; split/resume history: every single cut position, all pairs of cuts for streams <=300 bytes, random k-cuts (k<=8), 1-byte pieces, each compared with the one-shot result. Word classification: all 256 top bytes x boundary low parts (quick) / all 2^32 words (thorough, distinct by construction). Non-trivial = distinct streams containing >=1 entry and >=1 scaler block or invalid word, plus classified words that are entries. Also: runs of 65 534..131 073 consecutive entries (one shot and in 10 007-byte pieces), every value of every byte of the scaler tag followed by > 240 bytes of valid words, alignment independence. Round 5: every ordered pair of 1 792 boundary words as 2- / 3-word streams; scaler blocks with special contents (tags, markers, all ones) between identical markers; words made from source constants. Round 6: inputs of 0.3..1.2 MB ending in a complete block / partial block / entry / partial word / invalid word; invalid-channel words inside runs of 4 000..70 000 entries. Round 8: every word 0xFE0000nn / 0xFEnn003C / 0xFE00nn3C followed by 1 100 bytes of entries; timestamps within 16 ticks of a wrap right after a marker. Round 9: the odd-address parse runs under the panic monitor too.",
         assumptions: &["reference parser (harness/src/cb.rs::ref_parse) transcribes the statement"],
         profiles: both,
         shards: shards16,
